@@ -391,7 +391,7 @@ def execute(spec, w, ctx):
                 w, int(op.get("sched", 0)), float(op.get("p", 0.3)),
                 lambda: ops.solver_cli(w, sides[0][2], True, None, dict(cfg_p), sides[0][0].get("entropy", 0), cap_a),
                 lambda: ops.solver_cli(w, sides[1][2], True, None, dict(cfg_p), sides[1][0].get("entropy", 0), cap_b), summ_b)
-            events.append([i_op, "cli_pair", out_a["status"], res_b["status"]])
+            events.append([i_op, "cli_pair", out_a["status"], res_b["status"], res_b.get("trace")])
             shapes.append("P")
             rets = [cap_a.get("ret_obj"), dec(res_b["ret"]) if res_b.get("ret") is not None else None]
             for (x_, gs, path_), out_, ret_ in zip(sides, (out_a, res_b), rets):
